@@ -1324,6 +1324,20 @@ def gen_conv_cases(seed, tier, consts, loc):
                 add('wcstombs_s', [('R', ret8), ('R', fam_copy.garbage(rng, max(dmax, ln, 1))), ('R', wsrc)], [(0, 0), (1, 0), dmax, (2, 0), ln, UNK],
                     op='wcstombs', chars=s, dmax=dmax, len=ln, kind='len>dmax' if ln > dmax else 'ok', valid=True, objelems=max(dmax, ln, 1))
         add('wcstombs_s', [('R', ret8), ('R', wsrc)], [(0, 0), None, 64, (1, 0), nb + 1, UNK], op='wcstombs', chars=s, dmax=64, len=nb + 1, kind='query', valid=True)
+    # NULL in both pointer positions (the size-query form called with a null source): reported, never dereferenced
+    for dm in (0, 4):
+        add('mbstowcs_s', [('R', ret8)], [(0, 0), None, dm, None, 1, UNK], op='mbstowcs', chars=[], dmax=dm, len=1, kind='bothnull', valid=False)
+        add('wcstombs_s', [('R', ret8)], [(0, 0), None, dm, None, 1, UNK], op='wcstombs', chars=[], dmax=dm, len=1, kind='bothnull', valid=False)
+        n[0] += 1; cs.append(vlib.Case('v%d' % n[0], 'mbsrtowcs_s', [('R', ret8), ('R', b'\0' * 8)], [(0, 0), None, dm, None, 1, (1, 0), UNK],
+                                       dict(cls='conv', func='mbsrtowcs_s', loc=loc, op='mbsrtowcs', chars=[], dmax=dm, len=1, kind='bothnull', valid=False)))
+        n[0] += 1; cs.append(vlib.Case('v%d' % n[0], 'wcsrtombs_s', [('R', ret8), ('R', b'\0' * 8)], [(0, 0), None, dm, None, 1, (1, 0), UNK],
+                                       dict(cls='conv', func='wcsrtombs_s', loc=loc, op='wcsrtombs', chars=[], dmax=dm, len=1, kind='bothnull', valid=False)))
+    # a null source together with a dest declared with zero elements: reported, and nothing of dest is written
+    add('mbstowcs_s', [('R', ret8), ('R', fam_copy.garbage(rng, 8))], [(0, 0), (1, 0), 0, None, 1, UNK], op='mbstowcs', chars=[], dmax=0, len=1, kind='srcnull-dmax0', valid=False, objelems=0)
+    add('wcstombs_s', [('R', ret8), ('R', fam_copy.garbage(rng, 8))], [(0, 0), (1, 0), 0, None, 1, UNK], op='wcstombs', chars=[], dmax=0, len=1, kind='srcnull-dmax0', valid=False, objelems=0)
+    # the object size is known to the library, dmax elements fit it but len elements do not (len may exceed dmax: it only limits the conversion)
+    add('mbstowcs_s', [('R', ret8), ('R', fam_copy.garbage(rng, 40)), ('R', b'ab\0')], [(0, 0), (1, 0), 2, (2, 0), 20, 40], op='mbstowcs', chars=[0x61, 0x62], dmax=2, len=20, kind='bos-len', valid=True, objelems=10)
+    add('wcstombs_s', [('R', ret8), ('R', fam_copy.garbage(rng, 10)), ('R', fam_copy.enc([0x61, 0x62, 0], 4))], [(0, 0), (1, 0), 2, (2, 0), 20, 10], op='wcstombs', chars=[0x61, 0x62], dmax=2, len=20, kind='bos-len', valid=True, objelems=10)
     # restartable forms (implementation side only): srcp is a pointer to the source pointer
     for s in strings[:40]:
         nb = len(mb(s)); nc = len(s)
@@ -1437,6 +1451,7 @@ def check_C15(rep, scr, tier, seed):
                                 elif retval != len(deliver) or got != deliver + [0]: fails.append(('wrong-conversion', 'converted %s count %d, the standard function gives %s count %d' % (got, retval, deliver + [0], len(deliver))))
                             else:
                                 if rc == 0: fails.append(('truncated-success', 'result of %d elements does not fit dmax %d but EOK was returned' % (len(deliver) + 1, m['dmax'])))
+                    if m['kind'] == 'bothnull' and rc != 400: fails.append(('null-not-reported', 'dest and src both null (dmax %d): returned %d, not ESNULLP' % (m['dmax'], rc)))
                     if m['kind'] == 'invalid':
                         if rc == 0: fails.append(('invalid-accepted', 'invalid sequence accepted'))
                         elif a.blocks[1][:1] != b'\0': fails.append(('invalid-not-cleared', 'invalid sequence: dest not cleared'))
